@@ -16,7 +16,7 @@ import random
 from . import common, gen, valgen, valcheck
 from .gen import N
 
-C06_FILES = ["Properties/C06.v", "Proofs/ValidateProofs.v", "Proofs/ValidateRules.v", "Proofs/ValidateValues.v", "Proofs/ValidateSites.v", "Proofs/ValidateWalk.v", "Proofs/ValidateTree.v", "Proofs/SingleRoot.v", "Proofs/ValidateSpreads.v", "Proofs/ValidateScopes.v", "Proofs/ValidatePure.v", "Proofs/ValidateVars.v"]
+C06_FILES = ["Properties/C06.v", "Proofs/ValidateProofs.v", "Proofs/ValidateRules.v", "Proofs/ValidateValues.v", "Proofs/ValidateSites.v", "Proofs/ValidateWalk.v", "Proofs/ValidateTree.v", "Proofs/SingleRoot.v", "Proofs/SingleRootSpreads.v", "Proofs/ValidateSpreads.v", "Proofs/ValidateScopes.v", "Proofs/ValidatePure.v", "Proofs/ValidateVars.v"]
 
 INTROSPECTION_DOCS = [
     "{ __schema { queryType { name } mutationType { name } types { kind name fields(includeDeprecated: true) { name "
